@@ -241,6 +241,8 @@ def _box(a, cont):
         return a.astype(np.int64)
     if cont == "list":
         return a.tolist()
+    if cont == "fortran":
+        return np.array(a, order="F", copy=True)
     return a
 
 
@@ -503,6 +505,231 @@ def _shrink_large(case):
                 yield {**case, "mask_recipe": {**rc, "n_unmasked": n2}}
 
 
+# ======================================================================================================
+# Round 5/6 hardening: VARIANT WORLDS (kind "var")
+#
+# One case = one small world (mask bits + exact values + requested form / storage) together with HOW it is
+# presented to the public API and over which history:
+#   mp      presentation of the mask: memory layout / dtype / container of the array handed to Mask2D / Mask1D,
+#           construction route (plain, from an existing mask object, the same with an explicit origin of exactly
+#           (0.0, 0.0), through `invert=True` on the complement), pixel scales and origin (decades)
+#   vp      presentation of the values: layout / dtype / container, or wrapped in an existing structure
+#           (slim stored / natively stored / natively stored with junk under the mask / result of arithmetic)
+#   opts    constructor options, passed exactly as given ("set but falsy" values, numpy bools, a header, over
+#           sampling objects, positional arguments, explicit defaults of every other parameter of the signature)
+#   rounds  ownership / configuration history: every round sets `general.structures.native_binned_only`, builds
+#           the world from FRESH equal inputs (or on the reused mask object), observes, and then optionally
+#           scribbles in place over every array the API returned or accepted
+# Every round's observation is compared with the Lean model's value for a fresh world in that state (existing
+# driver ops) and with the oracle's direct statement.  All comparisons are exact: C01's code never computes
+# with the values (they are copied and multiplied by 0 / 1), so every finite double must come back bit for bit.
+# ======================================================================================================
+_TOK = {"F": False, "T": True, "0": 0, "1": 1, "npF": np.False_, "npT": np.True_}
+_VAL_LAYS = ("c", "f", "tview", "strided", "neg", "ro", "list", "f32", "i64", "i32")
+_MASK_LAYS = ("c", "f", "tview", "strided", "neg", "ro", "list", "u8", "i64", "f32")
+_CFG_KEY = ("general", "structures", "native_binned_only")
+
+
+def _tok(opts, name):
+    """python value of an option token; an absent option is not passed (default False)"""
+    return _TOK[opts[name]] if name in opts else False
+
+
+def _present(a, lay):
+    """`a` (C-contiguous ndarray) as an equal-valued object in another layout / dtype / container.
+    Returns (object handed to the API, ndarray to fingerprint for the caller's-buffer check or None)."""
+    a = np.array(a, order="C", copy=True)  # never hand out (a view of) the harness's own buffer
+    if lay == "tview" and a.ndim < 2:
+        lay = "strided"
+    if lay == "c":
+        out = a
+    elif lay == "f":
+        out = np.array(a, order="F", copy=True)
+    elif lay == "tview":  # a transposed view of a C-contiguous buffer
+        out = np.array(a.swapaxes(0, 1), order="C", copy=True).swapaxes(0, 1)
+    elif lay == "strided":  # every other element of a larger buffer filled with sentinels
+        big = np.full(tuple(2 * s + 1 for s in a.shape), 99, dtype=a.dtype)
+        sl = tuple(slice(1, None, 2) for _ in a.shape)
+        big[sl] = a
+        out = big[sl]
+    elif lay == "neg":  # negative stride along the first axis
+        out = np.array(a[::-1], order="C", copy=True)[::-1]
+    elif lay == "ro":
+        out = a.copy()
+        out.flags.writeable = False
+    elif lay == "list":
+        return a.tolist(), None
+    elif lay in ("f32", "i64", "i32", "u8"):
+        dt = {"f32": np.float32, "i64": np.int64, "i32": np.int32, "u8": np.uint8}[lay]
+        with np.errstate(all="ignore"):
+            out = a.astype(dt)
+            back = out.astype(a.dtype)
+        if not np.array_equal(back, a):  # not representable in that dtype: present it plainly
+            out = a.copy()
+    else:
+        raise ValueError(f"layout {lay}")
+    return out, out
+
+
+def _exact_floats(vals):
+    """float64 values of exact "p/q" strings; Skip when one is not a double (never for generated cases)"""
+    out = []
+    for v in vals:
+        fr = Fraction(v)
+        try:
+            f = float(fr)
+        except OverflowError:
+            raise Skip("value outside the float64 range")
+        if Fraction(f) != fr:
+            raise Skip("value is not an exact double")
+        out.append(f)
+    return out
+
+
+def _var_np_values(case):
+    """C-contiguous float64 ndarray of the case's values in the input form"""
+    struct, form = case["struct"], case["form"]
+    mj = case["mask"]
+    if struct in ("array", "array1d", "grid1d"):
+        a = np.array(_exact_floats(case["values"]), dtype=np.float64)
+        if struct == "array" and form == "native":
+            a = a.reshape(mj["h"], mj["w"])
+        return a
+    flat = _exact_floats([c for p in case["values"] for c in p])
+    a = np.array(flat, dtype=np.float64).reshape(-1, 2)
+    if form == "native":
+        a = a.reshape(mj["h"], mj["w"], 2)
+    return a
+
+
+def _var_bits(case):
+    return [c == "1" for c in case["mask"]["bits"]]
+
+
+def _var_stored_native(case, flag):
+    """does the constructor store natively?  (`native_binned_only` forces it for Array2D only)"""
+    return bool(_tok(case.get("opts", {}), "store_native")) or (bool(flag) and case["struct"] == "array")
+
+
+def _var_expect(case, flag):
+    """the property, directly (Fractions): what one round of the history must report"""
+    struct = case["struct"]
+    bits = _var_bits(case)
+    pair = struct in ("grid", "vector")
+    conv = (lambda x: (Fraction(x[0]), Fraction(x[1]))) if pair else (lambda x: Fraction(x))
+    zero = (Fraction(0), Fraction(0)) if pair else Fraction(0)
+    v = [conv(x) for x in case["values"]]
+    unm = [i for i, b in enumerate(bits) if not b]
+    slim = v if case["form"] == "slim" else [v[i] for i in unm]
+    native = [zero] * len(bits)
+    for k, i in enumerate(unm):
+        native[i] = slim[k]
+    sn = _var_stored_native(case, flag)
+    skip = bool(_tok(case.get("opts", {}), "skip_mask")) and struct == "array"
+    if not sn:
+        arr = slim
+    elif skip and case["form"] == "native":
+        arr = v  # the caller asked for the masking to be skipped: junk under the mask is kept as given
+    else:
+        arr = native
+    exp = {"stored": "native" if sn else "slim", "array": arr, "slim": slim, "native": native}
+    if struct == "array":
+        exp["nsm"] = arr if sn else native
+    return exp, conv
+
+
+def _var_flat(struct, arr):
+    arr = np.asarray(arr)
+    if struct in ("grid", "vector"):
+        return [qlist(p) for p in arr.reshape(-1, 2)]
+    return qlist(arr.ravel())
+
+
+def _set_native_only(value):
+    from autoconf import conf
+
+    conf.instance[_CFG_KEY[0]][_CFG_KEY[1]][_CFG_KEY[2]] = bool(value)
+
+
+def _scribble(arrs, how):
+    """overwrite, in place, every writeable ndarray in `arrs` (arrays the API returned or accepted)"""
+    for a in arrs:
+        if not isinstance(a, np.ndarray) or a.size == 0:
+            continue
+        try:
+            if a.dtype == bool:
+                a[...] = ~a if how == "add1" else True
+            elif how == "add1":
+                a += 1
+            elif a.dtype.kind == "f":
+                a[...] = np.nan
+            else:
+                a[...] = -7
+        except (ValueError, TypeError):
+            pass  # read-only buffer
+
+
+def _var_wellformed(case):
+    struct, form, mj = case["struct"], case["form"], case["mask"]
+    dim1 = struct in ("array1d", "grid1d")
+    if dim1 != (case.get("dim") == 1):
+        return False
+    bits = mj["bits"]
+    if "0" not in bits:
+        return False
+    if not dim1 and len(bits) != mj["h"] * mj["w"]:
+        return False
+    n = len(bits) if form == "native" else bits.count("0")
+    if len(case["values"]) != n:
+        return False
+    via = case.get("vp", {}).get("via", "plain")
+    if via in ("struct_junk", "arith") and not (struct == "array" and form == "native"):
+        return False
+    opts = case.get("opts", {})
+    if via in ("struct_slim", "struct_native") and struct == "array" and bool(_tok(opts, "skip_mask")):
+        return False
+    if via in ("no_mask", "apply_mask"):
+        if "store_native" in opts or "skip_mask" in opts or case.get("reuse_mask"):
+            return False
+        if via == "no_mask" and "1" in bits:
+            return False
+        if via == "apply_mask" and not (struct in ("array", "vector") and form == "native"):
+            return False
+    mp = case.get("mp", {})
+    if mp.get("via") in ("invert", "invert_from_mask") and mp.get("lay", "c") in ("u8", "i64", "f32"):
+        return False  # `invert` is a bitwise NOT: only meaningful for boolean input
+    return bool(case.get("rounds"))
+
+
+def _shrink_var(case):
+    def ok(c):
+        return _var_wellformed(c)
+
+    # the rounds of a history are never dropped: a failure caused by process-wide state (a memo handing out a
+    # scribbled buffer, a cached configuration value) would shrink, inside this process, to a history that
+    # passes when replayed in a fresh one
+    for key in ("index", "util", "reuse_mask"):
+        if case.get(key):
+            yield {**case, key: False}
+    vp = case.get("vp", {})
+    if vp.get("via", "plain") != "plain":
+        yield {**case, "vp": {**vp, "via": "plain"}}
+    if vp.get("lay", "c") != "c":
+        yield {**case, "vp": {**vp, "lay": "c"}}
+    mp = case.get("mp", {})
+    if mp.get("via", "plain") != "plain":
+        yield {**case, "mp": {**mp, "via": "plain"}}
+    if mp.get("lay", "c") != "c":
+        yield {**case, "mp": {**mp, "lay": "c"}}
+    if mp.get("scales") or mp.get("origin"):
+        yield {**case, "mp": {k: v for k, v in mp.items() if k not in ("scales", "origin")}}
+    opts = case.get("opts", {})
+    for k in list(opts):
+        c = {**case, "opts": {kk: vv for kk, vv in opts.items() if kk != k}}
+        if ok(c):
+            yield c
+
+
 class C01(PropertyCheck):
     pid = "C01"
     title = "slim/native inverses"
@@ -549,6 +776,9 @@ class C01(PropertyCheck):
             seed = rng.randrange(1 << 16)
             for c in self.DEFAULT_LADDER:
                 yield from self._large_for_hint(c, seed, n_sizes=1, dims=("frame", "1d"))
+        # 0b. always-on mid / large sizes (round-5/6 hardening, R5-E): beyond 2^16 pixels / rows / columns /
+        #     1-D entries and beyond 2^15 unmasked pixels, judged by the vectorised oracle
+        yield from self._always_large(rng)
         # 1. index tables, exhaustive
         for (h, w) in gen.shapes_upto(idx_cells):
             if tier == "thorough" and h * w > 12:
@@ -604,6 +834,9 @@ class C01(PropertyCheck):
                                "values": qlist(values), "store_native": sn}
         # 5. reuse histories on real objects (round-4 hardening, see design_notes/C01.md)
         yield from self._history_cases(tier, rng)
+        # 6. variant worlds (round-5/6 hardening): decades, ownership histories, layouts / containers,
+        #    configuration histories, option crossings
+        yield from self._var_cases(tier, rng)
 
     def _constructor_cases(self, rng, m, tag):
         h, w = len(m), len(m[0])
@@ -640,6 +873,8 @@ class C01(PropertyCheck):
             return self._run_hist(aa, case)
         if kind == "large":
             return self._run_large(aa, case)
+        if kind == "var":
+            return self._run_var(aa, case)
         if kind == "1d":
             mask = np.array([c == "1" for c in case["bits"]], dtype=bool)
             m1 = aa.Mask1D(mask=mask, pixel_scales=1.0)
@@ -751,6 +986,8 @@ class C01(PropertyCheck):
         kind = case["kind"]
         if kind == "large":
             return []  # judged by the vectorised oracle alone (the exact-Rat driver is quadratic at these sizes)
+        if kind == "var":
+            return self._var_requests(case)
         if kind == "hist":
             reqs = []
             for snap in _hist_walk(case):
@@ -793,6 +1030,8 @@ class C01(PropertyCheck):
                 reads.append(_snap_fold(snap, responses[at:at + n]))
                 at += n
             return {"reads": reads}
+        if kind == "var":
+            return self._var_model_obs(case, responses)
         for r in responses:
             if "err" in r:
                 return {"err": r["err"]}
@@ -813,6 +1052,10 @@ class C01(PropertyCheck):
                 "native": r["native"]}
 
     def compare(self, case, impl_obs, model_obs, cmp):
+        if case["kind"] == "var" and isinstance(impl_obs, dict) and "rounds" in impl_obs:
+            impl_obs = {**impl_obs, "rounds": [{k: v for k, v in r.items() if k != "input_unchanged"}
+                                               for r in impl_obs["rounds"]]}
+            return cmp.diff(impl_obs, model_obs)
         if case["kind"] == "1dcon":
             if "err" in impl_obs:
                 return cmp.diff(impl_obs, model_obs)
@@ -837,6 +1080,8 @@ class C01(PropertyCheck):
             return self._oracle_hist(case, obs)
         if kind == "large":
             return self._oracle_large(case, obs)
+        if kind == "var":
+            return self._oracle_var(case, obs)
         if kind == "1dcon":
             mask = [c == "1" for c in case["bits"]]
             vals = [Fraction(v) for v in case["values"]]
@@ -936,6 +1181,8 @@ class C01(PropertyCheck):
         if case["kind"] == "hist":
             bits = case["masks"][0]["bits"]
             return "0" in bits and "1" in bits
+        if case["kind"] == "var":
+            return "0" in case["mask"]["bits"] and "1" in case["mask"]["bits"]
         bits = case.get("bits") or case["mask"]["bits"]
         return "0" in bits and "1" in bits
 
@@ -945,6 +1192,9 @@ class C01(PropertyCheck):
             return
         if case["kind"] == "large":
             yield from _shrink_large(case)
+            return
+        if case["kind"] == "var":
+            yield from _shrink_var(case)
             return
         if case["kind"] != "index":
             return
@@ -1490,6 +1740,35 @@ class C01(PropertyCheck):
                                                         "n_unmasked": t}, "vseed": k[0] % 97,
                    "flavour": flav[(k[0] + 1) % 3]}
 
+    def _always_large(self, rng):
+        """a handful of cases per run whose sizes lie beyond every 16-bit limit (frame pixels, unmasked pixels,
+        rows, columns, 1-D length), in both orientations, Fortran-ordered and list inputs among them"""
+        seed = rng.randrange(1 << 16)
+        h, w = rng.choice([(182, 367), (201, 331), (163, 409)])  # 66794 / 66531 / 66667 pixels
+        combos = [("slim", True), ("native", False), ("native", True), ("slim", False)]
+        flav = ["fine", "int", "quarter"]
+        conts = ["float", "fortran", "list"]
+        for o, (hh, ww) in enumerate(((h, w), (w, h))):
+            base = {"kind": "large", "hint": 65536, "dim": "frame", "h": hh, "w": ww, "vseed": (seed + o) % 97,
+                    "mask_recipe": {"kind": "hash", "seed": seed + o, "dens": 300 + 100 * o},
+                    "mlay": "f" if (o + seed) % 2 else "c"}
+            yield {**base, "tag": "always_large_index", "sub": "index"}
+            for j, (sub, (form, sn)) in enumerate((("array", combos[2 * o]), ("array", combos[2 * o + 1]),
+                                                   ("grid", combos[(o + seed) % 4]))):
+                yield {**base, "tag": f"always_large_{sub}", "sub": sub, "form": form, "store_native": sn,
+                       "flavour": flav[(j + o) % 3], "container": conts[(j + o + seed) % 3]}
+        t = 65536 + 7 + seed % 50
+        for dim, (hh, ww) in (("rows", (t, 1)), ("cols", (1, t))):
+            base = {"kind": "large", "hint": 65536, "dim": dim, "h": hh, "w": ww, "vseed": seed % 97,
+                    "mask_recipe": {"kind": "hash", "seed": seed + 6, "dens": 400}}
+            yield {**base, "tag": "always_large_index", "sub": "index"}
+            form, sn = combos[(seed + len(dim)) % 4]
+            yield {**base, "tag": "always_large_array", "sub": "array", "form": form, "store_native": sn,
+                   "flavour": "fine", "container": "float"}
+        yield {"kind": "large", "tag": "always_large_1d", "sub": "1d", "hint": 65536, "dim": "len1d",
+               "L": 70001 + seed % 100, "mask_recipe": {"kind": "hash", "seed": seed + 8, "dens": 400},
+               "vseed": seed % 97, "flavour": "fine"}
+
     @staticmethod
     def _large_inputs(case, m):
         """(values in the requested input form as float64 ndarray, native-shaped values) for a 2-D large case"""
@@ -1520,7 +1799,8 @@ class C01(PropertyCheck):
                 out[nm + ".slim"] = _digest(a.slim.array)
                 out[nm + ".native"] = _digest(a.native.array)
             return out
-        mask = _mask2d(aa, m.copy(), scales=(0.75, 1.25), origin=(0.5, -0.25))
+        mask = _mask2d(aa, np.array(m, order="F", copy=True) if case.get("mlay") == "f" else m.copy(),
+                       scales=(0.75, 1.25), origin=(0.5, -0.25))
         if sub == "index":
             di = mask.derive_indexes
             return {"native_for_slim": _digest(di.native_for_slim), "unmasked_slim": _digest(di.unmasked_slim),
@@ -1601,6 +1881,809 @@ class C01(PropertyCheck):
         if obs["stored"] != want:
             return False, where + f"stored form {obs['stored']} != requested {want}"
         return True, ""
+
+    # ================================================================== round 5/6: variant worlds (kind "var")
+    @staticmethod
+    def _var_keys(case, flag):
+        """which quantities one round observes (a pure function of the input)"""
+        struct = case["struct"]
+        sn = _var_stored_native(case, flag)
+        keys = ["stored"]
+        if struct != "grid1d":
+            keys.append("array")
+        if not (struct == "array" and flag):
+            keys.append("slim")  # under native_binned_only `.slim` of an Array2D is stored natively (documented)
+        if not (struct == "grid1d" and case["form"] == "native" and sn):
+            keys.append("native")  # a natively stored Grid1D keeps what it was given (1-D clause: round trips only)
+        if struct == "array":
+            keys.append("nsm")
+        if not (struct == "array" and flag):
+            keys += ["native.slim", "slim.native"]
+        if case.get("util") and struct in ("array", "grid", "array1d"):
+            keys += ["util_slim", "util_native"]
+        return keys
+
+    def _var_mask(self, aa, case, bits):
+        """(mask object, ndarray handed in or None) for the case's mask presentation"""
+        mp = case.get("mp", {})
+        dim1 = case.get("dim") == 1
+        via = mp.get("via", "plain")
+        src = ~bits if via in ("invert", "invert_from_mask") else bits
+        m_obj, m_fp = _present(src, mp.get("lay", "c"))
+        cls = aa.Mask1D if dim1 else aa.Mask2D
+        sc = mp.get("scales")
+        if sc is None:
+            scales = 1.0 if dim1 else (1.0, 2.0)
+        elif isinstance(sc, int):
+            scales = sc
+        elif isinstance(sc, str):
+            scales = float(Fraction(sc))
+        else:
+            scales = tuple(float(Fraction(s)) for s in sc)
+        kw = {}
+        if "origin" in mp:
+            kw["origin"] = tuple((int(Fraction(o)) if mp.get("origin_int") else float(Fraction(o)))
+                                 for o in mp["origin"])
+        if "invert_tok" in mp:
+            kw["invert"] = _TOK[mp["invert_tok"]]
+        elif via in ("invert", "invert_from_mask"):
+            kw["invert"] = True
+        if via == "invert_from_mask":  # the complement wrapped in a mask object, inverted on the way in
+            m0 = cls(mask=m_obj, pixel_scales=1.0 if dim1 else (1.0, 2.0))
+            mask = cls(mask=m0, pixel_scales=scales, **kw)
+        elif via in ("from_mask", "from_mask_o0"):
+            m0 = cls(mask=m_obj, pixel_scales=1.0 if dim1 else (1.0, 2.0), origin=(0.5,) if dim1 else (0.5, -1.0))
+            if via == "from_mask_o0":
+                kw["origin"] = (0.0,) if dim1 else (0.0, 0.0)
+            mask = cls(mask=m0, pixel_scales=scales, **kw)
+        else:
+            mask = cls(mask=m_obj, pixel_scales=scales, **kw)
+        return mask, m_fp
+
+    @staticmethod
+    def _var_cls(aa, struct):
+        return {"array": aa.Array2D, "grid": aa.Grid2D, "vector": aa.VectorYX2D, "array1d": aa.Array1D,
+                "grid1d": aa.Grid1D}[struct]
+
+    def _var_wrap(self, aa, case, vals_obj, m0, via):
+        """the values wrapped in an existing structure of the same class"""
+        struct = case["struct"]
+        cls = self._var_cls(aa, struct)
+        if via == "struct_junk":  # natively stored, junk under the mask kept (skip_mask)
+            return aa.Array2D(values=vals_obj, mask=m0, store_native=True, skip_mask=True)
+        if via == "arith":  # natively stored array + constant: the constant sits under the mask
+            c = float(Fraction(case["vp"]["c"]))
+            a0 = aa.Array2D(values=np.asarray(vals_obj, dtype=np.float64) - c, mask=m0, store_native=True)
+            return a0 + c
+        sn0 = via == "struct_native"
+        if struct == "vector":
+            return cls(values=vals_obj, grid=aa.Grid2D.from_mask(mask=m0), mask=m0, store_native=sn0)
+        return cls(values=vals_obj, mask=m0, store_native=sn0)
+
+    def _var_build(self, aa, case, vals_obj, mask):
+        import inspect
+
+        struct = case["struct"]
+        cls = self._var_cls(aa, struct)
+        opts = case.get("opts", {})
+        kw = {}
+        for name in ("store_native", "skip_mask"):
+            if name in opts:
+                kw[name] = _TOK[opts[name]]
+        if "header" in opts:
+            if opts["header"] == "none":
+                kw["header"] = None
+            else:
+                from autoarray.structures.header import Header
+
+                kw["header"] = Header(header_sci_obj={"EXPTIME": 2.0})
+        for name, key in (("over_sampling", "over_sampling"), ("osnu", "over_sampling_non_uniform")):
+            if name in opts:
+                if opts[name]:
+                    from autoarray.operators.over_sampling.uniform import OverSamplingUniform
+
+                    kw[key] = OverSamplingUniform(sub_size=int(opts[name]))
+                else:
+                    kw[key] = None
+        if opts.get("explicit_defaults"):  # every other parameter of the signature, at its default, explicitly
+            for name, p in inspect.signature(cls.__init__).parameters.items():
+                if name in ("self", "values", "mask", "grid") or name in kw:
+                    continue
+                if p.kind in (p.VAR_POSITIONAL, p.VAR_KEYWORD) or p.default is p.empty:
+                    continue
+                kw[name] = p.default
+        via = case.get("vp", {}).get("via", "plain")
+        if via in ("no_mask", "apply_mask"):  # the alternative constructors: an all-unmasked structure (then masked)
+            kw.pop("store_native", None)
+            kw.pop("skip_mask", None)
+            mj = case["mask"]
+            if struct in ("array", "grid", "vector") and np.ndim(vals_obj) == (1 if struct == "array" else 2):
+                kw["shape_native"] = (mj["h"], mj["w"])
+            sc = 1.0 if case.get("dim") == 1 else (1.0, 2.0)
+            obj = cls.no_mask(values=vals_obj, pixel_scales=sc, **kw)
+            return obj.apply_mask(mask=mask) if via == "apply_mask" else obj
+        grid = aa.Grid2D.from_mask(mask=mask) if struct == "vector" else None
+        if opts.get("positional"):
+            if struct == "vector":
+                return cls(vals_obj, grid, mask, **kw)
+            return cls(vals_obj, mask, **kw)
+        if struct == "vector":
+            return cls(values=vals_obj, grid=grid, mask=mask, **kw)
+        return cls(values=vals_obj, mask=mask, **kw)
+
+    def _var_views(self, case, obj, flag, keys, n_cells, n_unmasked, returned):
+        struct = case["struct"]
+        out = {}
+        stored = np.asarray(obj.array)
+        if struct == "array":
+            out["stored"] = "native" if stored.ndim == 2 else "slim"
+        elif struct in ("grid", "vector"):
+            out["stored"] = "native" if stored.ndim == 3 else "slim"
+        elif n_cells != n_unmasked:
+            out["stored"] = "native" if len(stored) == n_cells else "slim"
+        else:  # every pixel unmasked: the two forms coincide
+            out["stored"] = "native" if _var_stored_native(case, flag) else "slim"
+        returned.append(stored)
+        if "array" in keys:
+            out["array"] = _var_flat(struct, stored)
+        for key in keys:
+            if key in ("slim", "native", "native.slim", "slim.native"):
+                o = obj
+                for part in key.split("."):
+                    o = getattr(o, part)
+                a = np.asarray(o.array)
+                returned.append(a)
+                out[key] = _var_flat(struct, a)
+        if "nsm" in keys:
+            a = np.asarray(obj.native_skip_mask.array)
+            returned.append(a)
+            out["nsm"] = _var_flat(struct, a)
+        return out
+
+    def _var_util(self, aa, case, bits, base_vals, returned):
+        """the anchored util functions called directly with plain ndarrays in the case's layouts"""
+        from autoarray.structures.arrays import array_2d_util, array_1d_util
+        from autoarray.structures.grids import grid_2d_util
+
+        struct, form = case["struct"], case["form"]
+        m_arr, _ = _present(bits, "c" if case.get("mp", {}).get("lay", "c") in ("list", "u8", "i64", "f32")
+                            else case.get("mp", {}).get("lay", "c"))
+        lay = case.get("vp", {}).get("lay", "c")
+        v_arr, _ = _present(base_vals, "c" if lay in ("list", "i64", "i32", "f32") else lay)
+        if struct == "array":
+            to_slim = lambda a: array_2d_util.array_2d_slim_from(array_2d_native=a, mask_2d=m_arr)
+            to_native = lambda s: array_2d_util.array_2d_native_from(array_2d_slim=s, mask_2d=m_arr)
+        elif struct == "grid":
+            to_slim = lambda a: grid_2d_util.grid_2d_slim_from(grid_2d_native=a, mask=m_arr)
+            to_native = lambda s: grid_2d_util.grid_2d_native_from(grid_2d_slim=s, mask_2d=m_arr)
+        else:
+            to_slim = lambda a: array_1d_util.array_1d_slim_from(array_1d_native=a, mask_1d=m_arr)
+            to_native = lambda s: array_1d_util.array_1d_native_from(array_1d_slim=s, mask_1d=m_arr)
+        if form == "native":
+            s = np.asarray(to_slim(v_arr))
+            n = np.asarray(to_native(s.copy()))
+        else:
+            n = np.asarray(to_native(v_arr))
+            s = np.asarray(to_slim(n.copy()))
+        returned += [s, n]
+        return {"util_slim": _var_flat(struct, s), "util_native": _var_flat(struct, n)}
+
+    def _var_round(self, aa, case, bits, base_vals, shared_mask, flag):
+        struct = case["struct"]
+        dim1 = case.get("dim") == 1
+        vp = case.get("vp", {})
+        returned, accepted = [], []
+        if shared_mask is not None:
+            mask, m_fp = shared_mask, None
+        else:
+            mask, m_fp = self._var_mask(aa, case, bits)
+        m_before = None if m_fp is None else np.array(m_fp, copy=True)
+        vals_obj, v_fp = _present(base_vals, vp.get("lay", "c"))
+        v_before = None if v_fp is None else np.array(v_fp, copy=True)
+        via = vp.get("via", "plain")
+        if via not in ("plain", "no_mask", "apply_mask"):
+            m0 = mask if vp.get("same_mask", True) else self._var_mask(aa, case, bits)[0]
+            vals_obj = self._var_wrap(aa, case, vals_obj, m0, via)
+        obj = self._var_build(aa, case, vals_obj, mask)
+        out = {}
+        if case.get("index") and not dim1:
+            di = mask.derive_indexes
+            nfs, unm, msk = (np.asarray(di.native_for_slim), np.asarray(di.unmasked_slim),
+                             np.asarray(di.masked_slim))
+            out["index"] = {"native_for_slim": [[int(a), int(b)] for a, b in nfs],
+                            "unmasked_slim": [int(v) for v in unm], "masked_slim": [int(v) for v in msk],
+                            "pixels_in_mask": int(mask.pixels_in_mask)}
+            returned += [nfs, unm, msk]
+        keys = self._var_keys(case, flag)
+        out.update(self._var_views(case, obj, flag, keys, int(bits.size), int((~bits).sum()), returned))
+        if "util_slim" in keys:
+            out.update(self._var_util(aa, case, bits, base_vals, returned))
+        ok = True
+        if v_fp is not None:
+            ok = ok and bool(np.array_equal(v_fp, v_before))
+        if m_fp is not None:
+            ok = ok and bool(np.array_equal(m_fp, m_before))
+        out["input_unchanged"] = ok
+        accepted += [a for a in (v_fp, m_fp) if a is not None]
+        if not case.get("reuse_mask"):
+            returned.append(np.asarray(mask.array))
+        return out, {"obj": obj, "mask": mask, "returned": returned, "accepted": accepted}
+
+    def _run_var(self, aa, case):
+        if not _var_wellformed(case):
+            raise Skip("malformed variant case")
+        bits = np.array(_var_bits(case), dtype=bool)
+        if case.get("dim") != 1:
+            bits = bits.reshape(case["mask"]["h"], case["mask"]["w"])
+        base_vals = _var_np_values(case)
+        rounds = case["rounds"]
+        outs, kept = [], []
+        shared = None
+        try:
+            for r in rounds:
+                flag = bool(r.get("flag", False))
+                _set_native_only(flag)
+                out, objs = self._var_round(aa, case, bits, base_vals, shared, flag)
+                if case.get("reuse_mask"):
+                    shared = objs["mask"]
+                if self._var_prev_ok(case, len(outs)):
+                    # the object of the previous round, read under the configuration in force now
+                    out["prev.native"] = _var_flat(case["struct"], np.asarray(kept[-1]["obj"].native.array))
+                outs.append(out)
+                kept.append(objs)
+                if r.get("scribble"):
+                    _scribble(objs["returned"] + objs["accepted"], r["scribble"])
+        finally:
+            _set_native_only(False)  # always back to the pinned configuration
+        obs = {"rounds": outs}
+        if self._var_has_late(case):
+            # configuration histories: every object read again under the pinned configuration
+            late = []
+            for objs in kept:
+                sink = []
+                v = self._var_views(case, objs["obj"], False, ["slim", "native"], int(bits.size),
+                                    int((~bits).sum()), sink)
+                late.append({"slim": v["slim"], "native": v["native"]})
+            obs["late"] = late
+        return obs
+
+    @staticmethod
+    def _var_prev_ok(case, k):
+        """round k also re-reads `.native` of the object built in round k-1 (unless that one was scribbled over)"""
+        if k < 1 or case["rounds"][k - 1].get("scribble"):
+            return False
+        if case["struct"] == "grid1d" and case["form"] == "native" and \
+                _var_stored_native(case, case["rounds"][k - 1].get("flag", False)):
+            return False
+        return True
+
+    @staticmethod
+    def _var_has_late(case):
+        rounds = case["rounds"]
+        if case["struct"] == "grid1d":
+            return False
+        return any(r.get("flag") for r in rounds) and not any(r.get("scribble") for r in rounds)
+
+    # -- model side: the existing driver ops, asked for a FRESH world in the state of every round
+    def _var_round_requests(self, case, flag):
+        struct = case["struct"]
+        mj = case["mask"]
+        sn = _var_stored_native(case, flag)
+        reqs = []
+        if case.get("index") and case.get("dim") != 1:
+            reqs += [{"op": "c01.native_for_slim", "mask": mj},
+                     {"op": "c01.mask_slim_indexes", "mask": mj, "flag": False},
+                     {"op": "c01.mask_slim_indexes", "mask": mj, "flag": True},
+                     {"op": "c01.total_pixels", "mask": mj}]
+        if struct == "array":
+            reqs.append({"op": "c01.array_convert", "mask": mj, "form": case["form"], "values": case["values"],
+                         "store_native": sn, "skip_mask": bool(_tok(case.get("opts", {}), "skip_mask"))})
+        elif struct in ("grid", "vector"):
+            reqs.append({"op": "c01.grid_convert", "mask": mj, "form": case["form"], "values": case["values"],
+                         "store_native": sn})
+        elif struct == "array1d":
+            reqs.append({"op": "c01.array1d_convert", "bits": mj["bits"], "values": case["values"],
+                         "store_native": sn})
+        else:  # grid1d: the 1-D gather / scatter
+            if case["form"] == "native":
+                slim = [v for v, b in zip(case["values"], mj["bits"]) if b == "0"]
+                reqs.append({"op": "c01.array1d", "dir": "slim_from", "bits": mj["bits"], "values": case["values"]})
+            else:
+                slim = case["values"]
+            reqs.append({"op": "c01.array1d", "dir": "native_from", "bits": mj["bits"], "values": slim})
+        return reqs
+
+    def _var_round_fold(self, case, flag, responses):
+        for r in responses:
+            if "err" in r:
+                return {"err": r["err"]}
+        struct = case["struct"]
+        out = {}
+        at = 0
+        if case.get("index") and case.get("dim") != 1:
+            out["index"] = {"native_for_slim": responses[0]["ok"], "unmasked_slim": responses[1]["ok"],
+                            "masked_slim": responses[2]["ok"], "pixels_in_mask": responses[3]["ok"]}
+            at = 4
+        sn = _var_stored_native(case, flag)
+        if struct == "grid1d":
+            if case["form"] == "native":
+                slim, native = responses[at]["ok"], responses[at + 1]["ok"]
+            else:
+                slim, native = case["values"], responses[at]["ok"]
+            full = {"stored": "native" if sn else "slim", "slim": slim, "native": native}
+        else:
+            r = responses[at]["ok"]
+            st = r["stored"]
+            if isinstance(st, dict):
+                kind, arr = st["stored"], st["values"]
+            else:
+                kind, arr = st, (r["native"] if st == "native" else r["slim"])
+            full = {"stored": kind, "array": arr, "slim": r["slim"], "native": r["native"]}
+            full["nsm"] = arr if kind == "native" else r["native"]
+        full["native.slim"] = full["slim"]
+        full["slim.native"] = full["native"]
+        full["util_slim"] = full["slim"]
+        full["util_native"] = full["native"]
+        for k in self._var_keys(case, flag):
+            out[k] = full[k]
+        out["nsm_native"] = full["native"]  # (popped by the caller; the native view whatever the keys are)
+        return out
+
+    def _var_model_obs(self, case, responses):
+        outs, at = [], 0
+        for r in case["rounds"]:
+            flag = bool(r.get("flag", False))
+            n = len(self._var_round_requests(case, flag))
+            o = self._var_round_fold(case, flag, responses[at:at + n])
+            if "err" not in o and self._var_prev_ok(case, len(outs)):
+                o["prev.native"] = o["nsm_native"]
+            o.pop("nsm_native", None)
+            outs.append(o)
+            at += n
+        obs = {"rounds": outs}
+        if self._var_has_late(case):
+            # `.slim` / `.native` of an object do not depend on how it is stored: every late read equals the
+            # views of a fresh world built under the pinned configuration (requested separately)
+            c2 = {**case, "index": False, "util": False}
+            n = len(self._var_round_requests(c2, False))
+            o = self._var_round_fold(c2, False, responses[at:at + n])
+            one = {"err": o["err"]} if "err" in o else {"slim": o["slim"], "native": o["native"]}
+            obs["late"] = [one for _ in case["rounds"]]
+        return obs
+
+    def _var_requests(self, case):
+        reqs = []
+        for r in case["rounds"]:
+            reqs += self._var_round_requests(case, bool(r.get("flag", False)))
+        if self._var_has_late(case):
+            reqs += self._var_round_requests({**case, "index": False, "util": False}, False)
+        return reqs
+
+    # -- oracle
+    def _oracle_var(self, case, obs):
+        rounds = obs.get("rounds", [])
+        if len(rounds) != len(case["rounds"]):
+            return False, f"history produced {len(rounds)} rounds, expected {len(case['rounds'])}"
+        bits = _var_bits(case)
+        w = case["mask"].get("w")
+        unm = [i for i, b in enumerate(bits) if not b]
+        struct = case["struct"]
+        desc = (f"{struct}(form={case['form']}, opts={case.get('opts', {})}, values as "
+                f"{case.get('vp', {}).get('lay', 'c')}/{case.get('vp', {}).get('via', 'plain')}, mask as "
+                f"{case.get('mp', {}).get('lay', 'c')}/{case.get('mp', {}).get('via', 'plain')})")
+        for k, (r, got) in enumerate(zip(case["rounds"], rounds)):
+            flag = bool(r.get("flag", False))
+            where = f"round {k}" + (" [native_binned_only=True]" if flag else "") + \
+                    (" (after the arrays of the previous round were overwritten in place)"
+                     if k and case["rounds"][k - 1].get("scribble") else "")
+            exp, conv = _var_expect(case, flag)
+            if "index" in got or (case.get("index") and case.get("dim") != 1):
+                gi = got.get("index", {})
+                expi = {"native_for_slim": [[i // w, i % w] for i in unm], "unmasked_slim": unm,
+                        "masked_slim": [i for i, b in enumerate(bits) if b], "pixels_in_mask": len(unm)}
+                for name, e in expi.items():
+                    if gi.get(name) != e:
+                        return False, f"{where}: {name} = {gi.get(name)} does not describe the mask (expected {e}); {desc}"
+            for key in self._var_keys(case, flag):
+                if key == "stored":
+                    if got.get("stored") != exp["stored"]:
+                        return False, (f"{where}: stored form {got.get('stored')} != {exp['stored']} "
+                                       f"(the value in force at call time); {desc}")
+                    continue
+                e = {"array": exp["array"], "slim": exp["slim"], "native": exp["native"],
+                     "nsm": exp.get("nsm"), "native.slim": exp["slim"], "slim.native": exp["native"],
+                     "util_slim": exp["slim"], "util_native": exp["native"]}[key]
+                try:
+                    g = [conv(x) for x in got[key]]
+                except (KeyError, ValueError, ZeroDivisionError, TypeError):
+                    return False, f"{where}: .{key} is missing or not finite ({str(got.get(key))[:120]}); {desc}"
+                if g != e:
+                    what = {"array": "the stored ndarray (.array)", "nsm": ".native_skip_mask",
+                            "util_slim": "the util gather", "util_native": "the util scatter"}.get(key, "." + key)
+                    return False, (f"{where}: {what} does not hold the unmasked values in row-major order / "
+                                   f"zeros at the masked positions; {desc}")
+            if got.get("input_unchanged") is False:
+                return False, f"{where}: an array handed to the API was modified in place; {desc}"
+            if self._var_prev_ok(case, k):
+                try:
+                    g = [conv(x) for x in got["prev.native"]]
+                except (KeyError, ValueError, ZeroDivisionError, TypeError):
+                    return False, f"{where}: .native of the previous round's object missing or not finite; {desc}"
+                if g != exp["native"]:
+                    return False, (f"{where}: .native of the object built in round {k - 1}, read now, does not hold "
+                                   f"the values with zeros at the masked positions; {desc}")
+        if self._var_has_late(case):
+            exp, conv = _var_expect(case, False)
+            late = obs.get("late", [])
+            if len(late) != len(case["rounds"]):
+                return False, "late reads missing"
+            for k, got in enumerate(late):
+                for key in ("slim", "native"):
+                    try:
+                        g = [conv(x) for x in got[key]]
+                    except (KeyError, ValueError, ZeroDivisionError, TypeError):
+                        return False, f"late read of round {k}: .{key} missing or not finite; {desc}"
+                    if g != exp[key]:
+                        return False, (f"late read of the object built in round {k} (configuration back to the "
+                                       f"pinned value): .{key} wrong; {desc}")
+        return True, ""
+
+    # -- generation of variant worlds
+    VAR_SHAPES = ((1, 1), (1, 4), (4, 1), (2, 2), (2, 3), (3, 2), (3, 4), (4, 3), (2, 5), (5, 2), (4, 4), (3, 5))
+
+    @staticmethod
+    def _var_fr_values(rng, n, flavour):
+        """n exact values (Fractions): distinct signed integers, quarters, > 24-bit mantissas, or a mix with
+        exact zeros and repeated values among them"""
+        ints = gen.distinct_ints(rng, n) if n else []
+        if flavour == "quarter":
+            return [Fraction(x, 4) for x in ints]
+        if flavour == "fine":
+            return [Fraction(x) + Fraction(1 + k % 3, 1 << 20) for k, x in enumerate(ints)]
+        if flavour == "zeros":
+            out = [Fraction(x) for x in ints]
+            for k in range(n):
+                u = rng.random()
+                if u < 0.3:
+                    out[k] = Fraction(0)
+                elif u < 0.4 and k:
+                    out[k] = out[k - 1]
+            return out
+        return [Fraction(x) for x in ints]
+
+    def _var_world(self, rng, struct=None, form=None, flavour=None, shape=None, junk=None):
+        """(case skeleton, masked flags per value, Fractions per value) of a random small world"""
+        struct = struct or rng.choice(["array", "array", "grid", "vector", "array1d", "grid1d"])
+        dim1 = struct in ("array1d", "grid1d")
+        if dim1:
+            L = shape or rng.choice([1, 2, 3, 4, 5, 7])
+            bits = [rng.random() < rng.choice([0.0, 0.3, 0.6]) for _ in range(L)]
+            if all(bits):
+                bits[rng.randrange(L)] = False
+            mj = {"bits": "".join("1" if b else "0" for b in bits)}
+        else:
+            h, w = shape or rng.choice(self.VAR_SHAPES)
+            m, _ = gen.random_mask(rng, h, w)
+            bits = [b for r in m for b in r]
+            mj = mask_json(m)
+        form = form or rng.choice(["slim", "native"])
+        flavour = flavour or rng.choice(["int", "int", "quarter", "fine", "zeros"])
+        if form == "native":
+            masked = list(bits)
+        else:
+            masked = [False] * bits.count(False)
+        fr = self._var_fr_values(rng, len(masked), flavour)
+        if form == "native" and (rng.random() < 0.25 if junk is None else not junk):  # no junk under the mask
+            fr = [Fraction(0) if mk else v for v, mk in zip(fr, masked)]
+        case = {"kind": "var", "dim": 1 if dim1 else 2, "mask": mj, "struct": struct, "form": form,
+                "flavour": flavour}
+        return case, masked, fr
+
+    @staticmethod
+    def _var_finish(case, fr, pair_b=None):
+        """fill in `values` from Fractions; None when a value is not an exact double"""
+        pair = case["struct"] in ("grid", "vector")
+
+        def exact(x):
+            try:
+                return Fraction(float(x)) == x
+            except OverflowError:
+                return False
+
+        if pair:
+            pb = pair_b or (lambda v: -3 * v + 1)
+            vals = [(v, pb(v)) for v in fr]
+            if not all(exact(a) and exact(b) for a, b in vals):
+                return None
+            case["values"] = [[q(a), q(b)] for a, b in vals]
+        else:
+            if not all(exact(v) for v in fr):
+                return None
+            case["values"] = qlist(fr)
+        case.pop("flavour", None)
+        return case if _var_wellformed(case) else None
+
+    DEC_KS = (-45, -33, -20, -9, 9, 20, 33, 45)
+    DEC_EXTREME_KS = (-1060, -1000, -700, -500, -200, 200, 500, 700, 1000)
+
+    def _var_decades(self, rng, n_base):
+        """R5-A / R5-E: the whole world, or one ingredient, scaled by 2^k (exact); nearly uniform values;
+        junk under the mask far smaller / larger than the values; geometry far from the origin"""
+        one = [{"flag": False}]
+        for b in range(n_base):
+            case, masked, fr = self._var_world(rng)
+            case["rounds"] = one
+            case["index"] = rng.random() < 0.3
+            case["util"] = rng.random() < 0.3
+            if rng.random() < 0.3:
+                case["opts"] = {"store_native": rng.choice(["T", "1", "npT"])}
+            ks = rng.sample(self.DEC_KS, 3)
+            for k in ks:  # the whole world: values, junk and the mask's geometry
+                s = Fraction(2) ** k
+                c = _copy.deepcopy(case)
+                c["tag"] = "dec_world"
+                c["k"] = k
+                if c["dim"] == 2:
+                    c["mp"] = {"scales": [q(s), q(3 * s)], "origin": [q(3 * s * (1 << 17)), q(-5 * s * (1 << 16))]}
+                else:
+                    c["mp"] = {"scales": q(s), "origin": [q(3 * s * (1 << 17))]}
+                c = self._var_finish(c, [v * s for v in fr])
+                if c:
+                    yield c
+            for k in rng.sample(self.DEC_EXTREME_KS, 2):  # out to the limits of float64 (values are only copied)
+                s = Fraction(2) ** k
+                c = _copy.deepcopy(case)
+                c["tag"] = "dec_extreme"
+                c["k"] = k
+                base = [Fraction(int(v)) if k < -1000 else v for v in fr]
+                c = self._var_finish(c, [v * s for v in base])
+                if c:
+                    yield c
+            if case["form"] == "native" and any(masked):
+                for k in rng.sample((-60, -45, -40, -30, 30, 45, 60), 3):  # only the junk under the mask
+                    s = Fraction(2) ** k
+                    c = _copy.deepcopy(case)
+                    c["tag"] = "dec_junk"
+                    c["k"] = k
+                    junk = [(v if v != 0 else Fraction(1)) * s if mk else v for v, mk in zip(fr, masked)]
+                    c = self._var_finish(c, junk)
+                    if c:
+                        yield c
+            # nearly uniform values (relative differences 2^-20 … 2^-40) at several decades
+            e = rng.choice([20, 30, 40])
+            cc = Fraction(rng.choice([1, 3, 5, 40]) * rng.choice([1, -1]))
+            for k in rng.sample((-45, -20, 0, 20, 45), 2):
+                s = Fraction(2) ** k
+                c = _copy.deepcopy(case)
+                c["tag"] = "dec_uniform"
+                c["k"] = k
+                vals = [cc * (1 + Fraction(i + 1, 1 << e)) * s for i in range(len(fr))]
+                if rng.random() < 0.5:  # the first value repeated exactly, the others within 2^-e of it
+                    vals[0] = cc * s
+                c = self._var_finish(c, vals, pair_b=lambda v: -2 * v)
+                if c:
+                    yield c
+
+    def _var_ownership(self, rng, n):
+        """R5-B: observe -> overwrite every returned / accepted array in place -> rebuild from fresh equal
+        inputs -> observe; three rounds"""
+        for _ in range(n):
+            case, masked, fr = self._var_world(rng)
+            how = rng.choice(["fill", "add1"])
+            case["rounds"] = [{"flag": False, "scribble": how}, {"flag": False, "scribble": how}, {"flag": False}]
+            case["index"] = case["dim"] == 2
+            case["util"] = True
+            case["reuse_mask"] = rng.random() < 0.3
+            case["tag"] = "own_reuse_mask" if case["reuse_mask"] else "own_fresh"
+            opts = {}
+            if rng.random() < 0.5:
+                opts["store_native"] = "T"
+            if case["struct"] == "array" and case["form"] == "native" and rng.random() < 0.3:
+                opts["skip_mask"] = "T"
+            case["opts"] = opts
+            vias = ["plain", "plain"]
+            if not opts.get("skip_mask"):
+                vias += ["struct_slim", "struct_native"]
+            if case["struct"] == "array" and case["form"] == "native":
+                vias.append("struct_junk")
+            case["vp"] = {"lay": rng.choice(["c", "c", "f", "list", "strided"]), "via": rng.choice(vias),
+                          "same_mask": rng.random() < 0.5}
+            case["mp"] = {"lay": rng.choice(["c", "c", "f", "list"]),
+                          "via": rng.choice(["plain", "plain", "from_mask", "from_mask_o0"])}
+            c = self._var_finish(case, fr)
+            if c:
+                yield c
+
+    def _var_layouts(self, rng, n_worlds):
+        """R5-C: every array-taking entry point with equal-valued inputs in every layout / dtype / container"""
+        one = [{"flag": False}]
+        for _ in range(n_worlds):
+            for struct in ("array", "grid", "vector", "array1d", "grid1d"):
+                for form in ("slim", "native"):
+                    for sn in ("F", "T"):
+                        # values small enough for float32 / int32 in one world, > 24-bit mantissas in the other
+                        for lay in _VAL_LAYS:
+                            fl = "int" if lay in ("f32", "i64", "i32") else rng.choice(["int", "quarter", "fine", "zeros"])
+                            case, masked, fr = self._var_world(rng, struct=struct, form=form, flavour=fl)
+                            case.update({"tag": f"lay_val_{lay}", "rounds": one, "opts": {"store_native": sn},
+                                         "vp": {"lay": lay}, "util": rng.random() < 0.5,
+                                         "mp": {"lay": rng.choice(_MASK_LAYS)}, "index": rng.random() < 0.3})
+                            c = self._var_finish(case, fr)
+                            if c:
+                                yield c
+                        vias = ["struct_slim", "struct_native"]
+                        if struct == "array" and form == "native":
+                            vias += ["struct_junk", "arith"]
+                        for via in vias:
+                            for same in (True, False):
+                                case, masked, fr = self._var_world(rng, struct=struct, form=form, flavour="int")
+                                vp = {"via": via, "same_mask": same, "lay": rng.choice(["c", "f", "list"])}
+                                if via == "arith":
+                                    cst = rng.choice([10, -3, 7])
+                                    vp["c"] = str(cst)
+                                    vp["lay"] = "c"
+                                    fr = [Fraction(cst) if mk else v for v, mk in zip(fr, masked)]
+                                opts = {"store_native": sn}
+                                if via == "struct_junk" and rng.random() < 0.4:
+                                    opts["skip_mask"] = "T"
+                                case.update({"tag": f"lay_{via}", "rounds": one, "opts": opts, "vp": vp,
+                                             "mp": {"lay": rng.choice(["c", "f", "tview"])}})
+                                c = self._var_finish(case, fr)
+                                if c:
+                                    yield c
+            # the alternative constructors: `no_mask` (all-unmasked world) and `no_mask(...).apply_mask(mask)`
+            for struct in ("array", "grid", "vector", "array1d", "grid1d"):
+                for form in ("slim", "native"):
+                    for lay in ("c", "f", "list", "strided", "i64"):
+                        shape = rng.choice([1, 3, 6]) if struct in ("array1d", "grid1d") else rng.choice(self.VAR_SHAPES)
+                        case, masked, fr = self._var_world(rng, struct=struct, form=form, shape=shape,
+                                                           flavour="int" if lay == "i64" else None)
+                        mj = case["mask"]
+                        case["mask"] = {**mj, "bits": "0" * len(mj["bits"])}
+                        n = len(mj["bits"])
+                        fr = self._var_fr_values(rng, n, "int" if lay == "i64" else rng.choice(["int", "fine", "zeros"]))
+                        case.update({"tag": "alt_no_mask", "rounds": one, "vp": {"lay": lay, "via": "no_mask"},
+                                     "index": True, "util": False})
+                        c = self._var_finish(case, fr)
+                        if c:
+                            yield c
+                if struct in ("array", "vector"):
+                    for lay in ("c", "f", "list", "tview"):
+                        case, masked, fr = self._var_world(rng, struct=struct, form="native", junk=True)
+                        case.update({"tag": "alt_apply_mask", "rounds": one, "vp": {"lay": lay, "via": "apply_mask"},
+                                     "mp": {"lay": rng.choice(["c", "f", "list"])}, "index": True})
+                        c = self._var_finish(case, fr)
+                        if c:
+                            yield c
+            # the mask in every layout / dtype / container and by every construction route
+            for lay in _MASK_LAYS:
+                for via in ("plain", "from_mask", "from_mask_o0", "invert", "invert_from_mask"):
+                    for dim_struct in ("array", "grid", "array1d"):
+                        case, masked, fr = self._var_world(rng, struct=dim_struct)
+                        case.update({"tag": f"lay_mask_{lay}" if via == "plain" else f"lay_mask_{via}",
+                                     "rounds": one, "index": True, "mp": {"lay": lay, "via": via},
+                                     "opts": {"store_native": rng.choice(["F", "T"])}, "util": True})
+                        c = self._var_finish(case, fr)
+                        if c:
+                            yield c
+
+    def _var_config(self, rng, n):
+        """R5-D: `general.structures.native_binned_only` flipped between calls, on fresh and on reused mask
+        objects; the stored form must follow the value in force at call time, the views never change"""
+        # every sequence holds both values, so that it is self-contained when replayed in a fresh process
+        seqs = ([False, True, False], [True, False], [True, True, False], [False, True], [True, False, True],
+                [False, True, True, False])
+        for i in range(n):
+            struct = "array" if i % 3 else rng.choice(["grid", "vector", "array1d", "array"])
+            case, masked, fr = self._var_world(rng, struct=struct)
+            seq = seqs[i % len(seqs)]
+            case["rounds"] = [{"flag": f} for f in seq]
+            case["reuse_mask"] = rng.random() < 0.5
+            case["index"] = rng.random() < 0.2
+            opts = {}
+            u = rng.random()
+            if u < 0.3:
+                opts["store_native"] = rng.choice(["T", "1"])
+            elif u < 0.6:
+                opts["store_native"] = rng.choice(["F", "0", "npF"])  # explicit value as control
+            if struct == "array" and case["form"] == "native" and rng.random() < 0.25:
+                opts["skip_mask"] = "T"
+            case["opts"] = opts
+            vias = ["plain", "plain", "plain"]
+            if not opts.get("skip_mask"):
+                vias += ["struct_slim", "struct_native"]
+            if struct == "array" and case["form"] == "native":
+                vias.append("struct_junk")
+            case["vp"] = {"via": rng.choice(vias), "same_mask": rng.random() < 0.5,
+                          "lay": rng.choice(["c", "list", "f"])}
+            case["tag"] = "cfg_reuse_mask" if case["reuse_mask"] else "cfg_fresh"
+            c = self._var_finish(case, fr)
+            if c:
+                yield c
+
+    def _var_options(self, rng, n_worlds):
+        """R5-F: the options of every constructor the property names (introspected), crossed pairwise, with
+        "set but falsy" values; every other parameter of the signature explicitly at its default"""
+        import inspect
+
+        aa = load_autoarray()
+        one = [{"flag": False}]
+        toks = ("F", "T", "0", "1", "npF", "npT")
+        menu = {"store_native": [("store_native", t) for t in toks],
+                "skip_mask": [("skip_mask", t) for t in toks],
+                "header": [("header", "none"), ("header", "hdr")],
+                "over_sampling": [("over_sampling", 0), ("over_sampling", 1), ("over_sampling", 2)],
+                "over_sampling_non_uniform": [("osnu", 0), ("osnu", 2)]}
+        for struct in ("array", "grid", "vector", "array1d", "grid1d"):
+            try:
+                params = inspect.signature(self._var_cls(aa, struct).__init__).parameters
+            except (TypeError, ValueError):
+                continue
+            names = [n for n in menu if n in params]
+            settings = []  # option dicts: singles and every pair of values of two different options
+            for a_i, a in enumerate(names):
+                settings += [dict([s]) for s in menu[a]]
+                for b in names[a_i + 1:]:
+                    settings += [dict([s, t]) for s in menu[a] for t in menu[b]]
+            if len(names) == 3:  # few enough to cross all three
+                settings += [dict([s, t, u]) for s in menu[names[0]] for t in menu[names[1]] for u in menu[names[2]]]
+            for wi in range(n_worlds):
+                for opts0 in settings:
+                    for form in ("slim", "native"):  # native inputs always carry junk under the mask here
+                        case, masked, fr = self._var_world(rng, struct=struct, form=form, junk=True)
+                        opts = dict(opts0)
+                        u = rng.random()
+                        if u < 0.2:
+                            opts["positional"] = True
+                        elif u < 0.45:
+                            opts["explicit_defaults"] = True
+                        case.update({"tag": f"opt_{struct}", "rounds": one, "opts": opts,
+                                     "index": False, "util": False})
+                        if rng.random() < 0.3:
+                            vias = ["struct_junk"] if (struct == "array" and form == "native") else []
+                            if not ("skip_mask" in opts and _TOK[opts["skip_mask"]]):
+                                vias += ["struct_slim", "struct_native"]
+                            if vias:
+                                case["vp"] = {"via": rng.choice(vias), "same_mask": rng.random() < 0.6}
+                        c = self._var_finish(case, fr)
+                        if c:
+                            yield c
+        # the mask constructors: invert x origin x pixel scales x construction route (boolean input only)
+        inv = ("F", "T", "0", "1", "npT")
+        origins = (None, ["0", "0"], ["0", "0", "int"], ["98304", "-163840"], ["1/2", "-1"])
+        scales = (None, "2", 1, ["1/2", "3"], ["1/1024", "1/1024"])
+        for _ in range(n_worlds):
+            for struct in ("array", "grid", "array1d"):
+                combos = [(i, o, None) for i in inv for o in origins] + [(i, None, s) for i in inv for s in scales] + \
+                         [("F", o, s) for o in origins for s in scales]
+                for i_tok, org, sc in combos:
+                    case, masked, fr = self._var_world(rng, struct=struct)
+                    dim1 = case["dim"] == 1
+                    mp = {"lay": rng.choice(["c", "f", "list", "ro", "tview"]), "invert_tok": i_tok}
+                    if _TOK[i_tok]:
+                        mp["via"] = rng.choice(["invert", "invert", "invert_from_mask"])
+                    elif rng.random() < 0.4:
+                        mp["via"] = rng.choice(["from_mask", "from_mask_o0"])
+                    if org is not None and mp.get("via") != "from_mask_o0":
+                        o = [x for x in org if x != "int"]
+                        mp["origin"] = o[:1] if dim1 else o
+                        if "int" in org:
+                            mp["origin_int"] = True
+                    if sc is not None:
+                        mp["scales"] = (sc[0] if dim1 else sc) if isinstance(sc, list) else sc
+                    case.update({"tag": "opt_mask", "rounds": one, "mp": mp, "index": True, "util": False,
+                                 "opts": {"store_native": rng.choice(["F", "T"])}})
+                    c = self._var_finish(case, fr)
+                    if c:
+                        yield c
+
+    def _var_cases(self, tier, rng):
+        mult = 1 if tier == "quick" else 6
+        yield from self._var_decades(rng, n_base=60 * mult)
+        yield from self._var_ownership(rng, n=150 * mult)
+        yield from self._var_layouts(rng, n_worlds=2 if tier == "quick" else 8)
+        yield from self._var_config(rng, n=180 * mult)
+        yield from self._var_options(rng, n_worlds=2 if tier == "quick" else 8)
 
     def theorems_for(self, case):
         return {
